@@ -147,6 +147,11 @@ order on the keys (then neither Go's map iteration order nor the unstable `sort.
 def sortedKeys {κ ν : Type} (m : AMap κ ν) (cmp : κ → κ → Int) : List κ :=
   (m.map Prod.fst).mergeSort (fun a b => decide (cmp a b ≠ 1))
 
+/-- `dict.SortedValues(m, cmp)`: the values of the map sorted with "less" = (`cmp` = Smaller).  Exact when `cmp` is a strict total
+order on the values that occur (then neither Go's map iteration order nor the unstable `sort.Slice` can show). -/
+def sortedValues {κ ν : Type} (m : AMap κ ν) (cmp : ν → ν → Int) : List ν :=
+  (m.map Prod.snd).mergeSort (fun a b => decide (cmp a b ≠ 1))
+
 /-- the body of a `for … range` loop in the Outcome monad -/
 def foldlE {σ α : Type} (f : σ → α → Outcome σ) : σ → List α → Outcome σ
   | s, [] => .ok s
